@@ -188,3 +188,247 @@ def enclosing_tests(root, node):
 
     rec(root, [])
     return path
+
+
+# --------------------------------------------------------------------------------------
+# reaching definitions on the statement CFG, and freshness of arrays/containers
+# --------------------------------------------------------------------------------------
+def _stmt_defs(node):
+    """names (re)bound by one CFG statement node (not by subscript/attribute stores)"""
+    out = set()
+    if isinstance(node, ast.Assign):
+        for t in node.targets:
+            for x in ast.walk(t):
+                if isinstance(x, ast.Name) and isinstance(x.ctx, ast.Store):
+                    out.add(x.id)
+    elif isinstance(node, (ast.AugAssign, ast.AnnAssign)):
+        if isinstance(node.target, ast.Name):
+            out.add(node.target.id)
+    elif isinstance(node, ast.For):
+        for x in ast.walk(node.target):
+            if isinstance(x, ast.Name):
+                out.add(x.id)
+    elif isinstance(node, ast.With):
+        for i in node.items:
+            if i.optional_vars is not None:
+                for x in ast.walk(i.optional_vars):
+                    if isinstance(x, ast.Name):
+                        out.add(x.id)
+    elif isinstance(node, ast.ExceptHandler) and node.name:
+        out.add(node.name)
+    return out
+
+
+def reaching_defs(fn):
+    """{cfg node id: {var: frozenset(def cfg node ids | 'param')}} at the ENTRY of each node"""
+    from .cfg import cfg_of, ENTRY
+
+    c = cfg_of(fn)
+    params = set(_all_params(fn))
+    gen = {}
+    for n in c.nodes():
+        a = c.ast.get(n)
+        gen[n] = _stmt_defs(a) if a is not None else set()
+    IN = {n: {} for n in c.nodes()}
+    OUT = {n: {} for n in c.nodes()}
+    OUT[ENTRY] = {p: frozenset(["param"]) for p in params}
+    changed = True
+    while changed:
+        changed = False
+        for n in c.nodes():
+            if n == ENTRY:
+                continue
+            acc = {}
+            for p in c.pred[n]:
+                for v, ds in OUT[p].items():
+                    acc[v] = acc.get(v, frozenset()) | ds
+            if acc != IN[n]:
+                IN[n] = acc
+            out = dict(acc)
+            for v in gen[n]:
+                out[v] = frozenset([n])
+            if out != OUT[n]:
+                OUT[n] = out
+                changed = True
+    return c, IN
+
+
+def _all_params(fn):
+    a = fn.node.args
+    ps = [x.arg for x in a.posonlyargs + a.args + a.kwonlyargs]
+    if a.vararg:
+        ps.append(a.vararg.arg)
+    if a.kwarg:
+        ps.append(a.kwarg.arg)
+    return ps
+
+
+FRESH_CALLS = {
+    "np.empty", "np.zeros", "np.ones", "np.array", "np.copy", "np.column_stack", "np.hstack", "np.vstack", "np.concatenate",
+    "np.where", "np.eye", "np.linspace", "np.percentile", "np.power", "np.sqrt", "np.mod", "np.less_equal", "np.arange", "np.full",
+    "np.zeros_like", "np.ones_like", "np.empty_like", "np.sort", "np.unique", "np.kron", "np.stack", "np.tile", "np.repeat",
+    "linalg.khatri_rao", "scipy.linalg.khatri_rao", "deepcopy", "copy.deepcopy", "copy.copy", "list", "dict", "set", "tuple", "sorted",
+    "splev", "range", "len", "int", "float", "str", "bool", "slice", "pd.DataFrame", "pd.Categorical", "pd.Series",
+    "get_interaction_matrix", "reduce",
+}
+FRESH_METHODS = {"copy", "tolist", "astype", "to_list", "flatten", "sum", "mean", "std", "any", "all", "unique", "join", "format",
+                 "intersection", "union", "difference", "split", "items", "keys", "values_list", "min", "max"}
+VIEW_ATTRS = {"T", "values", "real", "flat"}
+VIEW_CALLS = {"np.asarray", "np.asanyarray", "np.ravel", "np.reshape", "np.squeeze", "np.transpose", "np.atleast_1d", "np.atleast_2d"}
+VIEW_METHODS = {"reshape", "ravel", "view", "squeeze", "transpose", "to_numpy", "swapaxes"}
+
+
+class Freshness:
+    """fresh(expr at cfg node) = the value is an object created in this function invocation"""
+
+    def __init__(self, fn, prog=None):
+        self.fn = fn
+        self.cfg, self.IN = reaching_defs(fn)
+        self._memo = {}
+
+    def of_name(self, name, at_node, depth=0):
+        key = (name, at_node)
+        if key in self._memo:
+            return self._memo[key]
+        self._memo[key] = (True, "cycle")  # optimistic for loops
+        defs = self.IN.get(at_node, {}).get(name)
+        if not defs:
+            res = (False, f"`{name}` is not a local of this function (closure variable / global)")
+        else:
+            res = (True, "all reaching definitions create a new object")
+            for d in defs:
+                if d == "param":
+                    res = (False, f"`{name}` is a parameter (the caller's object)")
+                    break
+                node = self.cfg.ast[d]
+                if isinstance(node, ast.Assign):
+                    ok, why = self.of_expr(node.value, d, depth + 1)
+                elif isinstance(node, ast.AugAssign):
+                    ok, why = self.of_name(name, d, depth + 1)  # in-place update keeps the object
+                    if not ok:
+                        ok2, why2 = self.of_expr(ast.BinOp(left=node.target, op=node.op, right=node.value), d, depth + 1)
+                        ok, why = False, why
+                elif isinstance(node, ast.For):
+                    ok, why = False, f"`{name}` is a loop element of `{unparse(node.iter)}`"
+                    okc, _ = self.of_expr(node.iter, d, depth + 1)
+                    if okc:
+                        ok, why = True, "element of a container created here"
+                else:
+                    ok, why = False, f"`{name}` bound by {type(node).__name__}"
+                if not ok:
+                    res = (False, why)
+                    break
+        self._memo[key] = res
+        return res
+
+    def of_expr(self, e, at_node, depth=0):
+        if depth > 12:
+            return (False, "definition chain too deep")
+        if isinstance(e, ast.Constant):
+            return (True, "constant")
+        if isinstance(e, ast.Name):
+            return self.of_name(e.id, at_node, depth + 1)
+        if isinstance(e, (ast.List, ast.Dict, ast.Set, ast.Tuple, ast.ListComp, ast.DictComp, ast.SetComp, ast.GeneratorExp, ast.JoinedStr)):
+            return (True, "display / comprehension creates a new container")
+        if isinstance(e, (ast.BinOp, ast.UnaryOp, ast.Compare, ast.BoolOp)):
+            if isinstance(e, ast.BoolOp):
+                for v in e.values:
+                    ok, why = self.of_expr(v, at_node, depth + 1)
+                    if not ok:
+                        return (ok, why)
+                return (True, "all alternatives fresh")
+            return (True, "arithmetic / comparison creates a new object")
+        if isinstance(e, ast.IfExp):
+            a, wa = self.of_expr(e.body, at_node, depth + 1)
+            b, wb = self.of_expr(e.orelse, at_node, depth + 1)
+            return (a and b, wa if not a else wb)
+        if isinstance(e, ast.Call):
+            d = dotted(e.func)
+            if d in FRESH_CALLS:
+                return (True, f"{d}(...) returns a new object")
+            if d in VIEW_CALLS and e.args:
+                ok, why = self.of_expr(e.args[0], at_node, depth + 1)
+                return (ok, why if not ok else f"{d} of a fresh object")
+            if isinstance(e.func, ast.Attribute):
+                if e.func.attr in FRESH_METHODS:
+                    return (True, f".{e.func.attr}() returns a new object")
+                if e.func.attr in VIEW_METHODS:
+                    ok, why = self.of_expr(e.func.value, at_node, depth + 1)
+                    return (ok, why if not ok else f".{e.func.attr}() of a fresh object")
+            if isinstance(e.func, ast.Name) and e.func.id[:1].isupper():
+                return (True, "constructor call")
+            if isinstance(e.func, ast.Attribute) and e.func.attr == "__class__" or (isinstance(e.func, ast.Attribute) and unparse(e.func) == "self.__class__"):
+                return (True, "constructor call")
+            return (False, f"result of `{short_(e)}` may be an object that is also referenced elsewhere")
+        if isinstance(e, ast.Attribute):
+            if e.attr in VIEW_ATTRS:
+                ok, why = self.of_expr(e.value, at_node, depth + 1)
+                return (ok, why if not ok else f".{e.attr} of a fresh object")
+            if e.attr == "codes":
+                return self.of_expr(e.value, at_node, depth + 1)
+            return (False, f"`{unparse(e)}` is an attribute of an existing object (shared state)")
+        if isinstance(e, ast.Subscript):
+            idx = e.slice
+            basic = isinstance(idx, (ast.Slice, ast.Constant)) or (
+                isinstance(idx, ast.Tuple) and all(isinstance(x, (ast.Slice, ast.Constant)) or unparse(x) in ("np.newaxis", "None", "...") for x in idx.elts)
+            )
+            if basic:
+                ok, why = self.of_expr(e.value, at_node, depth + 1)
+                return (ok, why if not ok else "basic slice (view) of a fresh object")
+            # advanced indexing with an array / boolean mask / list: numpy returns a copy
+            if isinstance(idx, (ast.Name, ast.Compare, ast.UnaryOp, ast.List, ast.Call, ast.Attribute)):
+                if isinstance(idx, ast.Name):
+                    # an integer index would give a view: require the index to be array-valued
+                    defs = self.IN.get(at_node, {}).get(idx.id, ())
+                    arrayish = bool(defs) and all(
+                        d != "param" and isinstance(self.cfg.ast[d], ast.Assign)
+                        and isinstance(self.cfg.ast[d].value, (ast.Call, ast.Attribute, ast.Compare, ast.UnaryOp, ast.BinOp))
+                        for d in defs
+                    )
+                    if not arrayish:
+                        ok, why = self.of_expr(e.value, at_node, depth + 1)
+                        return (ok, why if not ok else "indexing of a fresh object")
+                return (True, "advanced (array/mask) indexing returns a copy")
+            ok, why = self.of_expr(e.value, at_node, depth + 1)
+            return (ok, why)
+        return (False, f"unmodelled expression {type(e).__name__}")
+
+
+def short_(node, n=60):
+    s = " ".join(unparse(node).split())
+    return s if len(s) <= n else s[: n - 3] + "..."
+
+
+INPLACE_METHODS = {"sort", "fill", "append", "insert", "remove", "pop", "update", "clear", "extend", "add", "discard", "setdefault",
+                   "reverse", "resize", "put", "itemset", "partition", "byteswap", "setflags", "popitem", "drop_duplicates_inplace"}
+
+
+def inplace_sites(fn):
+    """(node, target expression, kind) for every in-place mutation in fn (nested closures included)"""
+    out = []
+    for root in function_nodes(fn):
+        for n in ast.walk(root):
+            if isinstance(n, ast.Assign):
+                for t in n.targets:
+                    for x in ast.walk(t):
+                        if isinstance(x, ast.Subscript) and isinstance(x.ctx, ast.Store):
+                            out.append((n, x.value, "subscript store", root))
+            elif isinstance(n, ast.AugAssign):
+                if isinstance(n.target, ast.Subscript):
+                    out.append((n, n.target.value, "augmented subscript store", root))
+                elif isinstance(n.target, (ast.Name, ast.Attribute)):
+                    out.append((n, n.target, "augmented assignment", root))
+            elif isinstance(n, ast.Delete):
+                for t in n.targets:
+                    if isinstance(t, ast.Subscript):
+                        out.append((n, t.value, "del item", root))
+            elif isinstance(n, ast.Call):
+                if isinstance(n.func, ast.Attribute) and n.func.attr in INPLACE_METHODS:
+                    out.append((n, n.func.value, f".{n.func.attr}()", root))
+                for k in n.keywords:
+                    if k.arg == "inplace" and not (isinstance(k.value, ast.Constant) and k.value.value is False):
+                        tgt = n.func.value if isinstance(n.func, ast.Attribute) else n.func
+                        out.append((n, tgt, "inplace=True", root))
+                    if k.arg == "out":
+                        out.append((n, k.value, "out=", root))
+    return out
